@@ -49,6 +49,10 @@ CLAIMED = {
    "A corpus of valid encodings (WKB little/big endian, TWKB with header subsets and ID lists, WKT, GeoJSON, Feature, FeatureCollection of ~90 geometries over 7 types x 4 coordinate types x empty/1/2 members/nested) is put through every fault operator the property lists - every truncation, every single-byte substitution (all 256 values at order/type/count/header positions, boundary values elsewhere), every 4-byte count overwritten with 0, 1, 2^31-1, 2^31, 2^32-1 (and 2^24, 2^16, 1000) in both byte orders, varints 2^k / 2^64-1 / over-long spliced at every position, every token deleted / duplicated / replaced by each vocabulary token, every prefix - plus grammar-generated GeoJSON collections and every byte string of length <= 2 and every string of length 3..6 (thorough 8) over {00,01,02,07,10,ff}. Each case runs in a sacrificial process (RLIMIT_AS 4 GiB) through every entry point of its format: the four Unmarshal functions, the three TWKB header readers, Scan on 9 types, UnmarshalJSON on 10. Oracle: no panic, no process death, bytes allocated by the library call <= 1 MiB + 512 x len(input), returned geometries pass Validate (and the definitional oracle inside C03's domain) and re-encode in every format without panicking.",
    "Coverage-guided mutation named in the quantifier is sampling (a different family) and is not done; inputs are at most ~2 KiB, length matters only through count fields, which are overwritten with every boundary value. Trust: the supervisor/worker harness in checks/c08.go.",
    "exhaustive enumeration of fault operators over a corpus, each case executed on the real decoders in a sacrificial process", "4/C08"),
+ "C13": ("model_checking",
+   "Every non-empty subset of the 3x3 lattice and of the 4x4 lattice (quick: up to 9 points; thorough: all 65 535) as MultiPoints, every distinct permutation of every small subset with up to two duplicated members, 25 structured families of 6..200 points under every rotation and reversal of the order, and every other carrier type (all simple 3x3 polygons, paths, collections and multis with empty members): ConvexHull compared with an independent exact gift-wrapping hull (vertex set, strict convexity, covering, idempotence, order/multiplicity independence, Point/LineString degeneracies); both rotated rectangles checked for right angles, covering, a side on a hull edge and minimality against exact brute force over hull edges; general-position float images for the covering claims.",
+   "Trust: checks/c13.go:refHull (int64 gift wrapping) and exact rationals for the rectangle minima. Rectangle comparisons use tolerance 1e-9 x magnitude.",
+   "bounded-exhaustive enumeration of point sets and orders on the real code against an independent exact hull", "4/C13"),
 }
 
 PENDING = {}
